@@ -529,6 +529,7 @@ func (fv *FV) evalCall(e *Expr, env *Env) Val {
 		return fv.evalSpec(p.Body, &n)
 	}
 	if sf, ok := fv.u.db.SpecFns[e.Name]; ok {
+		fv.resolveSpecFnSorts(sf)
 		var a []string
 		for i, x := range e.Args {
 			v := fv.asTermSpec(env, fv.evalSpec(x, env))
@@ -541,7 +542,7 @@ func (fv *FV) evalCall(e *Expr, env *Env) Val {
 			return Val{T: sf.Name, S: sf.Ret}
 		}
 		t := "(" + sf.Name + " " + strings.Join(a, " ") + ")"
-		if sf.Body != nil && env.unfold < 1 && !strings.Contains(t, "!q") {
+		if sf.Body != nil && env.unfold < sf.Depth && !strings.Contains(t, "!q") {
 			// one-step unfolding of the defining equation for this application term
 			n := *env
 			n.vars = make(map[string]Val, len(env.vars)+len(sf.PNames))
@@ -549,7 +550,7 @@ func (fv *FV) evalCall(e *Expr, env *Env) Val {
 				n.vars[k] = v
 			}
 			for i, pn := range sf.PNames {
-				n.vars[pn] = Val{T: a[i], S: sf.Params[i]}
+				n.vars[pn] = Val{T: a[i], S: sf.Params[i], Typ: sf.PTypes[i]}
 			}
 			n.unfold = env.unfold + 1
 			body := fv.evalSpec(sf.Body, &n)
@@ -696,7 +697,13 @@ func (fv *FV) evalCall(e *Expr, env *Env) Val {
 			}
 		}
 		hs := "(Array Int " + es + ")"
-		return Val{T: fmt.Sprintf("(select %s (sref %s))", fv.heap(env.st, hs), s.T), S: hs}
+		var at types.Type
+		if s.Typ != nil {
+			if sl, ok := s.Typ.Underlying().(*types.Slice); ok {
+				at = types.NewArray(sl.Elem(), 0)
+			}
+		}
+		return Val{T: fmt.Sprintf("(select %s (sref %s))", fv.heap(env.st, hs), s.T), S: hs, Typ: at}
 	case "off":
 		return Val{T: fmt.Sprintf("(soff %s)", arg(0).T), S: "Int"}
 	case "ref":
@@ -707,7 +714,16 @@ func (fv *FV) evalCall(e *Expr, env *Env) Val {
 		return Val{T: fv.asTermSpec(env, x).T, S: "Int"}
 	case "sel":
 		a, i := arg(0), arg(1)
-		return Val{T: fmt.Sprintf("(select %s %s)", a.T, i.T), S: arrayElemSort(a.S)}
+		var et types.Type
+		if a.Typ != nil {
+			if at, ok := a.Typ.Underlying().(*types.Array); ok {
+				et = at.Elem()
+			}
+		}
+		return Val{T: fmt.Sprintf("(select %s %s)", a.T, i.T), S: arrayElemSort(a.S), Typ: et}
+	case "cloArg":
+		// the first captured variable of a closure value
+		return Val{T: fmt.Sprintf("(clo_arg0 %s)", fv.asTermSpec(env, arg(0)).T), S: "Int"}
 	case "upd":
 		a, i, v := arg(0), arg(1), arg(2)
 		return Val{T: fmt.Sprintf("(store %s %s %s)", a.T, i.T, v.T), S: a.S}
@@ -735,6 +751,19 @@ func (fv *FV) evalCall(e *Expr, env *Env) Val {
 			t = fmt.Sprintf("(sref %s)", x.T)
 		}
 		return Val{T: fmt.Sprintf("(> %s %s)", t, env.old.alloc), S: "Bool"}
+	case "rtype":
+		// rtype(r): dynamic type id of the object at reference r (tracked types only)
+		return Val{T: fmt.Sprintf("(rtype %s)", fv.asTermSpec(env, arg(0)).T), S: "Int"}
+	case "sameheap":
+		// sameheap("T"): every object of type T has the content it had at function entry
+		var cs []string
+		for _, k := range fv.heapKeysOfTypeName(e.Args[0].Name) {
+			cs = append(cs, fmt.Sprintf("(= %s %s)", fv.heapK(env.st, k, k), fv.heapK(env.old, k, k)))
+		}
+		if len(cs) == 1 {
+			return Val{T: cs[0], S: "Bool"}
+		}
+		return Val{T: "(and " + strings.Join(cs, " ") + ")", S: "Bool"}
 	case "allocbound":
 		return Val{T: fmt.Sprintf("(+ %s 1)", env.st.alloc), S: "Int"}
 	case "allocatedAfter":
@@ -826,4 +855,24 @@ func smallConstRange(e *Expr) bool {
 	}
 	d := new(big.Int).Sub(hi, lo)
 	return d.Cmp(big.NewInt(64)) <= 0
+}
+
+// resolveSpecFnSorts turns Go type names in a specification function's
+// signature into SMT sorts (and remembers the Go types for field access).
+func (fv *FV) resolveSpecFnSorts(sf *SpecFn) {
+	if len(sf.PTypes) != len(sf.Params) {
+		sf.PTypes = make([]types.Type, len(sf.Params))
+	}
+	for i, p := range sf.Params {
+		switch {
+		case strings.HasPrefix(p, "goarr:"):
+			t := fv.parseTypeName(p[6:])
+			sf.Params[i] = "(Array Int " + fv.u.sortOf(t, false) + ")"
+			sf.PTypes[i] = types.NewArray(t, 0)
+		case strings.HasPrefix(p, "go:"):
+			t := fv.parseTypeName(p[3:])
+			sf.Params[i] = fv.u.sortOf(t, false)
+			sf.PTypes[i] = t
+		}
+	}
 }
